@@ -86,6 +86,18 @@ public:
     return OS.str();
   }
 
+  // stable, unique record name: identifier, else the typedef that names it, else enclosing name + line
+  std::string recName(const RecordDecl *RD) {
+    if (!RD) return "";
+    if (RD->getIdentifier()) return RD->getQualifiedNameAsString();
+    if (const TypedefNameDecl *TD = RD->getTypedefNameForAnonDecl())
+      return TD->getQualifiedNameAsString();
+    std::string Outer;
+    if (auto *P = dyn_cast_or_null<RecordDecl>(RD->getDeclContext()))
+      Outer = recName(P) + "::";
+    return Outer + "(anon@" + std::to_string(lineOf(RD->getLocation())) + ")";
+  }
+
   std::string typeStr(QualType T) {
     if (T.isNull()) return "";
     return T.getCanonicalType().getUnqualifiedType().getAsString(
@@ -144,7 +156,7 @@ public:
       O["el"] = typeDesc(Ctx.getAsArrayType(C)->getElementType());
     } else if (C->isRecordType()) {
       O["k"] = "rec";
-      O["rec"] = C->getAsRecordDecl()->getQualifiedNameAsString();
+      O["rec"] = recName(C->getAsRecordDecl());
     } else if (C->isVoidType()) {
       O["k"] = "void";
     } else {
@@ -163,7 +175,7 @@ public:
         return "G:" + VD->getQualifiedNameAsString();
     }
     if (auto *FD = dyn_cast<FieldDecl>(D))
-      return "F:" + FD->getQualifiedNameAsString();
+      return "F:" + recName(FD->getParent()) + "::" + FD->getNameAsString();
     if (auto *EC = dyn_cast<EnumConstantDecl>(D))
       return "E:" + EC->getQualifiedNameAsString();
     D = D->getCanonicalDecl();
@@ -258,7 +270,8 @@ public:
       O["mk"] = D->getDeclKindName();
       O["arrow"] = ME->isArrow();
       if (auto *FD = dyn_cast<FieldDecl>(D)) {
-        O["rec"] = FD->getParent()->getQualifiedNameAsString();
+        O["rec"] = recName(FD->getParent());
+        if (FD->getParent()->isUnion()) O["inunion"] = true;
         O["d"] = declId(FD);
         if (FD->getParent()->isCompleteDefinition() &&
             !FD->getParent()->isDependentType()) {
@@ -267,7 +280,7 @@ public:
         }
         if (FD->isAnonymousStructOrUnion()) O["anon"] = true;
       } else if (auto *MD = dyn_cast<CXXMethodDecl>(D)) {
-        O["rec"] = MD->getParent()->getQualifiedNameAsString();
+        O["rec"] = recName(MD->getParent());
         O["d"] = mangle(MD);
       } else if (auto *VD = dyn_cast<VarDecl>(D)) {
         O["d"] = declId(VD);
@@ -284,7 +297,7 @@ public:
         Cal["q"] = FD->getQualifiedNameAsString();
         Cal["m"] = mangle(FD);
         if (auto *MD = dyn_cast<CXXMethodDecl>(FD)) {
-          Cal["rec"] = MD->getParent()->getQualifiedNameAsString();
+          Cal["rec"] = recName(MD->getParent());
           if (MD->isVirtual()) Cal["virt"] = true;
           if (MD->isStatic()) Cal["static"] = true;
         }
@@ -309,7 +322,7 @@ public:
       json::Object Cal;
       Cal["q"] = CD->getQualifiedNameAsString();
       Cal["m"] = mangle(CD);
-      Cal["rec"] = CD->getParent()->getQualifiedNameAsString();
+      Cal["rec"] = recName(CD->getParent());
       Cal["inrepo"] = inRepo(CD->getLocation());
       if (CD->isCopyOrMoveConstructor()) Cal["copy"] = true;
       if (CD->isImplicit() || CD->isDefaulted()) Cal["implicit"] = true;
@@ -498,7 +511,7 @@ public:
     }
     O["params"] = std::move(Ps);
     if (auto *MD = dyn_cast<CXXMethodDecl>(FD)) {
-      O["rec"] = MD->getParent()->getQualifiedNameAsString();
+      O["rec"] = recName(MD->getParent());
       if (MD->isVirtual()) O["virt"] = true;
       if (MD->isStatic()) O["static"] = true;
       if (MD->isConst()) O["constm"] = true;
@@ -536,9 +549,7 @@ public:
     if (!RD->isCompleteDefinition() || RD->isDependentContext()) return;
     if (!inRepo(RD->getLocation())) return;
     if (RD->isLambda()) return;
-    std::string Q = RD->getQualifiedNameAsString();
-    if (RD->getIdentifier() == nullptr && !RD->getTypedefNameForAnonDecl())
-      Q += "@" + std::to_string(lineOf(RD->getLocation()));
+    std::string Q = recName(RD);
     if (!SeenRec.insert(Q).second) return;
     json::Object O;
     O["q"] = Q;
@@ -551,7 +562,7 @@ public:
     for (const CXXBaseSpecifier &B : RD->bases())
       if (auto *BD = B.getType()->getAsCXXRecordDecl()) {
         json::Object BO;
-        BO["q"] = BD->getQualifiedNameAsString();
+        BO["q"] = recName(BD);
         BO["off"] = (int64_t)RL.getBaseClassOffset(BD).getQuantity();
         Bs.push_back(std::move(BO));
       }
